@@ -448,6 +448,115 @@ func c12GenHostMixCase(r *vfRand) *c01In {
 	return in
 }
 
+// c12GenManyKeysCase: more distinct cacheable keys than 2 x cacheSize (cacheSize 2, 3, 4, 8),
+// every key routed to its own backend / rewritten path, early keys hit again (promoted
+// inside the cache) and asked for once more after at least cacheSize other distinct
+// cacheable misses: whatever the cache keeps, a kept key must still be routed to ITS entry.
+func c12GenManyKeysCase(r *vfRand) *c01In {
+	size := r.PickInt(2, 3, 4, 8)
+	nk := 2*size + r.Range(1, 6)
+	in := &c01In{Server: c01Server{CacheSize: size, Rules: []c01Rule{{Paths: []c01Path{}}}}}
+	for k := 0; k < nk; k++ {
+		b := fmt.Sprintf("B%d", k)
+		in.Server.Backends = append(in.Server.Backends, b)
+		p := c01Path{Path: fmt.Sprintf("/p%d", k), Backend: b, Methods: []string{}, Headers: []c01Header{}}
+		if r.Chance(1, 3) {
+			p.Rewrite = fmt.Sprintf("/rw%d", k)
+		}
+		if r.Chance(1, 4) {
+			p.Path, p.Prefix = "", fmt.Sprintf("/p%d/", k)
+		}
+		in.Server.Rules[0].Paths = append(in.Server.Rules[0].Paths, p)
+		path := p.Path
+		if path == "" {
+			path = p.Prefix + "x"
+		}
+		host := "a.com"
+		if r.Chance(1, 5) {
+			host = "b.com" // the key differs by host as well
+		}
+		in.Reqs = append(in.Reqs, c01Req{Host: host, Method: "GET", Path: path, Headers: [][2]string{}, Remote: "10.0.1.1:4321"})
+	}
+	if r.Chance(1, 3) { // a few cached 404 / 405 keys in between
+		in.Reqs = append(in.Reqs, c01Req{Host: "a.com", Method: "GET", Path: "/none", Headers: [][2]string{}, Remote: "10.0.1.1:4321"})
+	}
+	for b := r.Range(2, 4); b > 0; b-- {
+		a := r.Intn(nk)
+		in.Seq = append(in.Seq, a, a)
+		if r.Bool() {
+			in.Seq = append(in.Seq, a)
+		}
+		others := r.Range(size, 2*size)
+		for k, j := 0, r.Intn(len(in.Reqs)); k < others; k, j = k+1, j+1 {
+			if j%len(in.Reqs) == a {
+				j++
+			}
+			in.Seq = append(in.Seq, j%len(in.Reqs))
+			if r.Chance(1, 4) {
+				in.Seq = append(in.Seq, a) // re-hit of the early key in between
+			}
+		}
+		in.Seq = append(in.Seq, a, a)
+	}
+	return in
+}
+
+// c12GenBigConfigCase: sizes just beyond an 8-bit boundary - more than 256 rules (virtual
+// hosts with rule- and path-level block lists), or more than 256 paths in one rule - and a
+// few requests (cold, then warm, allowed and blocked clients) aimed at the entries around
+// index 255 / 256 / 257 and the last one.
+func c12GenBigConfigCase(r *vfRand, manyRules bool) *c01In {
+	const x, y = "10.0.0.8", "192.168.7.7"
+	blockX := &c01Filter{BlockByDefault: false, AllowIPs: []string{}, BlockIPs: []string{x}}
+	in := &c01In{Server: c01Server{Backends: c01Backends, CacheSize: r.PickInt(8, 100)}}
+	n := r.PickInt(258, 300, 260)
+	targets := []int{1, 255, 256, 257, n - 1}
+	one := c01Rule{Paths: []c01Path{}}
+	for i := 0; i < n; i++ {
+		p := c01Path{Backend: c01Backends[i%3], Methods: []string{}, Headers: []c01Header{}}
+		if i >= 250 || i%40 == 1 {
+			p.Filter = blockX
+		}
+		if manyRules {
+			p.Prefix = "/"
+			rule := c01Rule{Host: fmt.Sprintf("h%d.example.com", i), Paths: []c01Path{p}}
+			if i%3 == 0 && i >= 250 {
+				rule.Filter, rule.Paths[0].Filter = blockX, nil
+			}
+			if i == 1 && r.Chance(1, 2) { // rule 1 also matches the host of rule 257
+				rule.Host, rule.HostRegexp = "", fmt.Sprintf(`^h(%d|%d)\.example\.com$`, i, i+256)
+				rule.Paths[0].Prefix = "/only-here"
+			}
+			in.Server.Rules = append(in.Server.Rules, rule)
+		} else {
+			p.Path = fmt.Sprintf("/p%d", i)
+			one.Paths = append(one.Paths, p)
+		}
+	}
+	if !manyRules {
+		in.Server.Rules = []c01Rule{one}
+	}
+	for _, t := range targets {
+		if t < 0 || t >= n {
+			continue
+		}
+		host, path := "a.com", fmt.Sprintf("/p%d", t)
+		if manyRules {
+			host, path = fmt.Sprintf("h%d.example.com", t), "/x"
+		}
+		a := len(in.Reqs)
+		in.Reqs = append(in.Reqs,
+			c01Req{Host: host, Method: "GET", Path: path, Headers: [][2]string{}, Remote: y + ":4321"},
+			c01Req{Host: host, Method: "GET", Path: path, Headers: [][2]string{}, Remote: x + ":4321"})
+		if r.Bool() {
+			in.Seq = append(in.Seq, a, a+1, a+1, a)
+		} else {
+			in.Seq = append(in.Seq, a+1, a, a+1)
+		}
+	}
+	return in
+}
+
 func TestVerifC12(t *testing.T) {
 	out := vfOpen(t)
 	defer out.Close()
@@ -471,7 +580,11 @@ func TestVerifC12(t *testing.T) {
 	n := vfN(200)
 	for i := 0; i < n; i++ {
 		var in *c01In
-		if i%6 == 5 || (adv && i%4 == 1) {
+		if i%100 == 9 || (adv && i%50 == 9) { // one or two big configurations per run
+			in = c12GenBigConfigCase(root.Fork(i), (i/50)%2 == 0) // >256 rules / >256 paths in a rule, in turn
+		} else if i%6 == 4 || (adv && i%4 == 2) {
+			in = c12GenManyKeysCase(root.Fork(i))
+		} else if i%6 == 5 || (adv && i%4 == 1) {
 			in = c12GenReloadCase(root.Fork(i))
 		} else if i%6 == 2 || (adv && i%4 == 3) {
 			in = c12GenHostMixCase(root.Fork(i))
